@@ -8,12 +8,16 @@ pub mod c01;
 pub mod c02;
 pub mod c03;
 pub mod c05;
+pub mod c06;
+pub mod c07;
 pub mod c08;
 pub mod c10;
+pub mod c13;
 pub mod c14;
 pub mod c15;
 pub mod c16;
 pub mod c19;
+pub mod normfam;
 pub mod c20;
 
 pub fn run(prop: &str, cfg: &Cfg) -> Outcome {
@@ -22,8 +26,11 @@ pub fn run(prop: &str, cfg: &Cfg) -> Outcome {
         "C02" => c02::run(cfg),
         "C03" => c03::run(cfg),
         "C05" => c05::run(cfg),
+        "C06" => c06::run(cfg),
+        "C07" => c07::run(cfg),
         "C08" => c08::run(cfg),
         "C10" => c10::run(cfg),
+        "C13" => c13::run(cfg),
         "C14" => c14::run(cfg),
         "C15" => c15::run(cfg),
         "C16" => c16::run(cfg),
@@ -42,8 +49,11 @@ pub fn replay(prop: &str, cfg: &Cfg, case: &Value) -> Vec<Violation> {
         "C02" => c02::replay(cfg, case),
         "C03" => c03::replay(cfg, case),
         "C05" => c05::replay(cfg, case),
+        "C06" => c06::replay(cfg, case),
+        "C07" => c07::replay(cfg, case),
         "C08" => c08::replay(cfg, case),
         "C10" => c10::replay(cfg, case),
+        "C13" => c13::replay(cfg, case),
         "C14" => c14::replay(cfg, case),
         "C15" => c15::replay(cfg, case),
         "C16" => c16::replay(cfg, case),
